@@ -391,21 +391,21 @@ func systemMain(c *Ctx) {
 		return
 	}
 	if c.Want("cycles") {
-		n, frames := 3, 1
+		n, frames := 3, 2
 		if c.Thorough() {
-			n, frames = 16, 3
+			n, frames = 16, 4
 		}
 		rng := c.Rand(2601)
 		all := romList(c, tmp, 16)
 		if n < len(all) {
-			all = []string{all[0], all[1], all[2], all[14]} // all[14] is the generated ROM that ends in STOP
+			all = []string{all[0], all[1], all[2], all[4], all[6], all[14]} // all[14] is the generated ROM that ends in STOP
 		}
 		for i, rom := range all {
 			w.Put(cyclesRun(fmt.Sprintf("system-cycles-%d", i), rom, frames, rng.Intn(6)))
 		}
 	}
 	if c.Want("twin") {
-		n, frames := 4, 6
+		n, frames := 6, 8
 		if c.Thorough() {
 			n, frames = 16, 40
 		}
